@@ -298,6 +298,10 @@ static std::string run_threads(const Cfg& c, unsigned nprod, unsigned nlines, co
 	return os.str();
 }
 
+// a producer stalled between the ticket and the publication of its element (ops take / publish)
+struct Pending { unsigned long pw, idx; void *data; };
+static std::map<unsigned, Pending> g_pending;
+
 //-----------------------------------------------------------------------------------------
 int main()
 {
@@ -318,6 +322,7 @@ int main()
 			{
 				if (lg) { release_consumer(); if (!stopped) delete lg; lg = 0; ::unlink(path.c_str()); }
 				stopped = false;
+				g_pending.clear();
 				g_script = 1;
 				g_writer_gone = 0;
 				lg = make_logger(cfg, path);
@@ -331,6 +336,41 @@ int main()
 				const std::string text(w[4] == "-" ? std::string() : w[4]);
 				const bool r(w[0] == "send" ? lg->send(text, Logger::Level(lev), nullptr, val) : lg->enqueue(text, Logger::Level(lev), nullptr, val));
 				out(r ? "ret=1" : "ret=0");
+			}
+			else if (w.size() == 5 && w[0] == "take" && lg)
+			{
+				// Logger::send up to and including the ticket of the queue push (the CAS on preadP in ff::uMPMC_Ptr_Queue::push): the
+				// producer is "descheduled" there, its element is not published yet.  `publish <pid>` performs the rest of that push.
+				const unsigned pid(std::stoul(w[1])), lev(std::stoul(w[2])), val(std::stoul(w[3]));
+				if (lev > 4 || g_pending.count(pid)) { out("bad-op"); continue; }
+				const std::string text(w[4] == "-" ? std::string() : w[4]);
+				if (!lg->is_loggable(Logger::Level(lev))) { out("ret=1"); continue; }	// send() returns true without touching the queue
+				ff::uMPMC_Ptr_Queue& q(*reinterpret_cast<ff::uMPMC_Ptr_Queue *>(&lg->_msg_queue));	// ff_unbounded_queue<T> holds exactly this one member
+				const Logger::LogElement le(f8_thread<Logger>::getid(), text, Logger::Level(lev), nullptr, val);
+				void *data(new (::ff::ff_malloc(sizeof(Logger::LogElement))) Logger::LogElement(le));
+				unsigned long pw, idx, seq;
+				for (;;)
+				{
+					pw = atomic_long_read(&q.preadP);
+					idx = pw & q.mask;
+					seq = atomic_long_read(&q.seqP[idx]);
+					if (pw == seq && abstraction_cas((volatile atom_t *)&q.preadP, (atom_t)(pw + 1), (atom_t)pw) == (atom_t)pw)
+						break;
+				}
+				Pending pd; pd.pw = pw; pd.idx = idx; pd.data = data;
+				g_pending[pid] = pd;
+				out("ok");
+			}
+			else if (w.size() == 2 && w[0] == "publish" && lg)
+			{
+				const unsigned pid(std::stoul(w[1]));
+				std::map<unsigned, Pending>::iterator it(g_pending.find(pid));
+				if (it == g_pending.end()) { out("bad-op"); continue; }
+				ff::uMPMC_Ptr_Queue& q(*reinterpret_cast<ff::uMPMC_Ptr_Queue *>(&lg->_msg_queue));	// ff_unbounded_queue<T> holds exactly this one member
+				((ff::uSWSR_Ptr_Buffer *)(q.buf[it->second.idx]))->push(it->second.data);
+				atomic_long_set(&q.seqP[it->second.idx], (it->second.pw + q.mask + 1));
+				g_pending.erase(it);
+				out("ret=1");
 			}
 			else if (w.size() == 1 && w[0] == "run" && lg)
 			{
